@@ -4,7 +4,7 @@
 # Stops when <log-dir>/STOP exists or every change of its share has been processed and <log-dir>/CLOSE exists.
 k="$1"; ns="$2"; mutdir="$3"; logdir="$4"; shift 4
 mkdir -p "$logdir/done"
-export CAMP_WT=/tmp/scratch/q$k-wt CAMP_OUT=/tmp/scratch/q$k-out
+export CAMP_WT=/tmp/scratch/q${QTAG:-}$k-wt CAMP_OUT=/tmp/scratch/q${QTAG:-}$k-out
 out="$logdir/stream$k.log"
 i=0; mine=""
 for pid in "$@"; do [ $((i % ns)) -eq "$k" ] && mine="$mine $pid"; i=$((i+1)); done
